@@ -30,6 +30,9 @@ pub struct Case {
     /// brotli window 10..24
     pub window: u8,
     pub schedule: Schedule,
+    /// set in the witness of the known finding: the D7 exclusions are not applied
+    #[serde(default)]
+    pub no_exclusions: bool,
 }
 
 pub fn body_of(case: &Case) -> String {
@@ -158,6 +161,11 @@ pub fn check(case: &Case) -> Outcome {
             out.fail(format!("Content-Encoding {:?} is not supported but the body was modified", case.header_value));
         }
         out.class("unsupported-encoding");
+        return out;
+    }
+    if !case.no_exclusions && crate::known::is_listed("C14", D7) && (!d7_zone_texts(body.as_bytes()).is_empty() || d7_zone_created_by_chain(&case.filters, &[ct.clone()], body.as_bytes())) {
+        // D7 (listed): the stages re-chunk the text at boundaries the harness cannot steer
+        out.class("excluded:D7-zone-in-a-stage-input");
         return out;
     }
     let enc = case.encoding.as_str();
@@ -300,6 +308,7 @@ pub fn strategy() -> BoxedStrategy<Case> {
                 level,
                 window,
                 schedule,
+                no_exclusions: false,
             }
         })
         .boxed()
